@@ -346,7 +346,7 @@ int SimulateRiscv::load(uint32_t opcode)
   {
     case 0:
       n = memory->read8(ea);
-      if ((n & 0x80) != 0) { n |= 0xfffffff0; }
+      if ((n & 0x80) != 0) { n |= 0xffffff00; }
       reg[rd] = n;
       break;
     case 1:
